@@ -13,7 +13,7 @@ RULE = ("inputs: uniformly random bit patterns, the full special-value lattice (
         "atan, atanh complex; asin, asinh real), even (square), asinh=-i asin(iz), atan=-i atanh(iz), acosh=+-i acos, Im acos=-Im asin; compared as bit "
         "patterns (NaN=NaN). distinct_nontrivial = distinct (identity, function, dtype, input class pair) tuples evaluated, input class = (class of re, class of im)")
 ASSUME = ["numpy's real atan2/log1p/log/sqrt/sin/cos are themselves odd/even bitwise where the identities rely on it (a native asymmetry would surface as a violation with the witness)"]
-REQUIRE = ["evaluations", "identity:conj", "identity:odd", "identity:even", "identity:rot-asinh", "identity:rot-atan", "identity:rot-acosh", "identity:imag-acos-asin", "lattice:points"]
+REQUIRE = ["evaluations", "identity:conj", "identity:odd", "identity:odd:parameterised", "identity:even", "identity:rot-asinh", "identity:rot-atan", "identity:rot-acosh", "identity:imag-acos-asin", "lattice:points"]
 
 ODD = ["asin", "asinh", "atan", "atanh"]
 
@@ -280,12 +280,49 @@ def task_lattice(params, rec):
     rec.sample(dict(dtype=params["cdtype"], kind="lattice", representatives=int(vals.size), points=int(z.size), first=[z[1], z[70]]))
 
 
-TASKS = {"random": task_random, "lattice": task_lattice}
+PARAMS = [dict(safe_min_limit=v) for v in (0.1, 1, 10, 1000)] + [dict(safe_max_limit_coefficient=c) for c in (1e-6, 0.5)] + [dict(safe_min_limit=10, safe_max_limit_coefficient=1e-3)]
+
+
+def task_params(params, rec):
+    """the documented tuning parameters of the real algorithms (Context(parameters=...)): a differently tuned asinh / acosh is still the same odd function,
+    bit for bit - every branch of the parameterised selects has to test |x|, not x"""
+    fdt = getattr(numpy, params["dtype"])
+    rng = gen.rng_for(params["seed"], 31, numpy.dtype(fdt).itemsize)
+    n = params["n"]
+    with numpy.errstate(all="ignore"):
+        x = numpy.concatenate([gen.random_bits(rng, fdt, n), (rng.choice([-1.0, 1.0], size=n) * 2.0 ** rng.uniform(-20, 20, size=n)).astype(fdt), lattice_values(fdt),
+                               gen.hostile_values(rng, fdt, n // 4, finite_only=False)])
+    x = x[~numpy.isnan(x)]
+    ck = Checker.__new__(Checker)
+    ck.rec = rec
+    for P in PARAMS:
+        tag = ",".join(f"{k}={v}" for k, v in P.items())
+        for f in ("asinh", "asin"):
+            g = graph.expanded(f, fdt, params=P)
+            a = graph.interp_np(g, -x)
+            b = -graph.interp_np(g, x)
+            ok = biteq(a, b)
+            rec.count("identity:odd", x.size)
+            rec.count("identity:odd:parameterised", x.size)
+            rec.count("evaluations", x.size)
+            if (~ok).any():
+                only_sign = biteq(canon_zero(a), canon_zero(b))
+                kz = ~ok & (x == 0) & only_sign
+                ck.report("odd-real", f, x, a, b, kz, extra_site=":zero-sign-only")
+                ck.report("odd-real", f, x, a, b, ~ok & ~kz, extra_site=":parameterised")
+            for c in set(vclass(x)[:20000].tolist()):
+                rec.cls("odd-real-param", f, tag, numpy.dtype(fdt).name, c)
+    rec.sample(dict(kind="parameterised real algorithms", parameters=PARAMS, points=int(x.size), dtype=params["dtype"]))
+
+
+TASKS = {"random": task_random, "lattice": task_lattice, "params": task_params}
 
 
 def plan(tier, seed):
     t = [("lattice", dict(cdtype=c)) for c in ("complex64", "complex128")]
     n, reps, nsh = (120000, 1, 4) if tier == "quick" else (400000, 8, 8)
+    for d in ("float32", "float64"):
+        t.append(("params", dict(dtype=d, seed=seed, n=100000 if tier == "quick" else 2000000)))
     for c in ("complex64", "complex128"):
         for s in range(nsh):
             t.append(("random", dict(cdtype=c, seed=seed, shard=s, n=n, reps=reps)))
@@ -294,6 +331,17 @@ def plan(tier, seed):
 
 def replay(site, witness, rec):
     dtn = witness["dtype"]
+    if site.endswith(":parameterised"):
+        fdt = getattr(numpy, dtn)
+        x = numpy.array([unfl(witness["z"], fdt)], dtype=fdt)
+        ck = Checker.__new__(Checker)
+        ck.rec = rec
+        for P in PARAMS:
+            g = graph.expanded(witness["function"], fdt, params=P)
+            a, b = graph.interp_np(g, -x), -graph.interp_np(g, x)
+            rec.count("evaluations", 1)
+            ck.report("odd-real", witness["function"], x, a, b, ~biteq(a, b), extra_site=":parameterised")
+        return
     if dtn.startswith("complex"):
         cdt = getattr(numpy, dtn)
         fdt = {numpy.complex64: numpy.float32, numpy.complex128: numpy.float64}[cdt]
